@@ -16,7 +16,7 @@ METHODS = ['GET', 'POST', 'OPTIONS', 'PUT', 'DELETE', 'HEAD']
 EIOS = [None, '4', '3', '5', '', '44']
 TRANSPORTS = [None, 'polling', 'websocket', 'bogus']
 SIDKINDS = ['absent', 'live_polling', 'live_upgraded', 'mid_upgrade', 'closed', 'unknown', 'rejected', 'closing', 'suffixed', 'prefix']
-HDRS = ['none', 'both', 'upgrade_only', 'connection_only', 'other_protocol']
+HDRS = ['none', 'both', 'upgrade_only', 'connection_only', 'other_protocol', 'both_mixed']   # both_mixed: the same two headers, other letter case
 JS = [None, '0', '5', 'x', '']
 CFGS = ['both', 'polling', 'websocket', 'no_upgrades']     # no_upgrades: both transports, allow_upgrades=False (governs the advertisement only)
 
@@ -110,8 +110,8 @@ def reference(method, eio, transport, sidkind, hdr, j, cfg):
         defects.add('version')
     if j is not None and j != '' and not j.lstrip('-').isdigit():
         defects.add('jsonp')
-    upgrade = hdr == 'both'
-    up_hdr_ws = hdr in ('both', 'upgrade_only')
+    upgrade = hdr in ('both', 'both_mixed')
+    up_hdr_ws = hdr in ('both', 'upgrade_only', 'both_mixed')
     session_transport = {'live_polling': 'polling', 'mid_upgrade': 'polling', 'closing': 'polling',
                          'live_upgraded': 'websocket'}.get(sidkind)
     if method == 'GET':
@@ -167,22 +167,24 @@ def build_request(method, eio, transport, sid, hdr, j):
                'upgrade_only': {'Upgrade': 'websocket'},
                'connection_only': {'Connection': 'Upgrade'},
                'other_protocol': {'Upgrade': 'h2c', 'Connection': 'Upgrade'},
+               'both_mixed': {'Upgrade': 'WebSocket', 'Connection': 'upgrade'},
                'none': {}}[hdr]
     return '&'.join(parts), headers
 
 
 def issue(w, impl, method, query, headers, hdr, body=None):
     """Returns (status, exc, pending, handle)."""
-    if hdr == 'both' and method == 'GET' and impl == 'async':
-        s = w.ws(query, upgrade_headers=True)
+    hws = headers if hdr == 'both_mixed' else None
+    if hdr in ('both', 'both_mixed') and method == 'GET' and impl == 'async':
+        s = w.ws(query, headers=hws, upgrade_headers=True)
         w.run()
         if s.exc:
             return None, s.exc, False, s
         if s.accepted:
             return 200, None, not s.done, s
         return 400 if s.rejected else None, None, not s.done, s
-    if hdr == 'both' and method == 'GET':
-        s = w.ws(query, upgrade_headers=True)
+    if hdr in ('both', 'both_mixed') and method == 'GET':
+        s = w.ws(query, headers=hws, upgrade_headers=True)
         w.run()
         if s.exc:
             return None, s.exc, False, s
@@ -280,7 +282,7 @@ def _work(chunk):
 def run(ctx):
     rep = report.Report('C12', 'exploration')
     if ctx.quick:
-        hdrs, js = ['none', 'both', 'upgrade_only', 'other_protocol'], [None, 'x', '5']
+        hdrs, js = ['none', 'both', 'upgrade_only', 'other_protocol', 'both_mixed'], [None, 'x', '5']
     else:
         hdrs, js = HDRS, JS
     prod = list(itertools.product(METHODS, EIOS, TRANSPORTS, SIDKINDS, hdrs, js))
